@@ -183,6 +183,31 @@ Fixpoint encode (j : json) : bytes :=
   | JNull | JBool _ | JNum _ => as_string j
   end.
 
+(* ---- the second caller of a checker: antispam rules (pipeline/antispam/rules.go antispamData.Get,
+        antispammer.go IsSpam). The data is not an event tree: the raw bytes of the record, the source
+        name and the meta map; a path selects one of them:  event | source_name | meta.<key>. ------- *)
+Record asdata := { as_event : bytes; as_source : bytes; as_meta : list (bytes * bytes) }.
+Definition b_event : bytes := [101; 118; 101; 110; 116]%N.
+Definition b_source_name : bytes := [115; 111; 117; 114; 99; 101; 95; 110; 97; 109; 101]%N.
+Definition b_meta : bytes := [109; 101; 116; 97]%N.
+Fixpoint meta_get (m : list (bytes * bytes)) (k : bytes) : option bytes :=
+  match m with
+  | [] => None
+  | (k', v) :: r => if bytes_eqb k' k then Some v else meta_get r k
+  end.
+Definition as_get (d : asdata) (path : list bytes) : option bytes :=
+  match path with
+  | [] => None
+  | k :: rest =>
+      if bytes_eqb k b_event then Some (as_event d)                  (* whatever follows in the path *)
+      else if bytes_eqb k b_source_name then Some (as_source d)
+      else if bytes_eqb k b_meta then
+        match rest with [k2] => meta_get (as_meta d) k2 | _ => None end
+      else None
+  end.
+Definition as_fget (d : asdata) (path : list bytes) : fdata :=
+  match as_get d path with None => FAbsent | Some b => FBytes b end.
+
 Section Oracles.
   Variable lower : bytes -> bytes.                       (* bytes.ToLower *)
   Variable re_match : bytes -> bytes -> bool.            (* regexp.MustCompile(p).Match(data) *)
@@ -380,6 +405,38 @@ Section Oracles.
     | _ => true
     end.
 
+  (* ---- a checker applied to antispam data: only field and logical nodes are supported
+          (antispam/README.md); the type assertion data.(eventData) of the other leaves fails ---- *)
+  Fixpoint check_as (n : node) (d : asdata) {struct n} : bool :=
+    match n with
+    | NField op path cs v0 vr => field_check op cs v0 vr (as_get d path)
+    | NLen _ _ _ _ | NTs _ _ _ _ _ | NType _ _ => false
+    | NAnd ops =>
+        (fix all (l : list node) : bool :=
+           match l with [] => true | x :: r => if check_as x d then all r else false end) ops
+    | NOr ops =>
+        (fix any (l : list node) : bool :=
+           match l with [] => false | x :: r => if check_as x d then true else any r end) ops
+    | NNot x => negb (check_as x d)
+    end.
+
+  Fixpoint eval_as (n : node) (d : asdata) {struct n} : bool :=
+    match n with
+    | NField op path cs v0 vr => field_eval op cs (v0 :: vr) (as_fget d path)
+    | NLen _ _ _ _ | NTs _ _ _ _ _ | NType _ _ => false
+    | NAnd ops => forallb (fun x => eval_as x d) ops
+    | NOr ops => existsb (fun x => eval_as x d) ops
+    | NNot x => negb (eval_as x d)
+    end.
+
+  Fixpoint lower_hyp_as (n : node) (d : asdata) {struct n} : bool :=
+    match n with
+    | NField op path cs v0 vr => fhyp op cs v0 vr (bytes_of (as_get d path))
+    | NAnd ops | NOr ops => forallb (fun x => lower_hyp_as x d) ops
+    | NNot x => lower_hyp_as x d
+    | _ => true
+    end.
+
   (* ---- what the constructors accept (NewFieldOpNode, NewLenCmpOpNode, NewCheckTypeOpNode,
           NewLogicalNode); [re_ok p]: regexp.Compile(p) succeeds ----------------------------- *)
   Variable re_ok : bytes -> bool.
@@ -409,6 +466,8 @@ End Oracles.
 (*          (2 (#key ...) #format cmp mode a shift)   mode 0: a = constant ns; 1: a = interval *)
 (*          (3 (#key ...) (#typename ...))                                                    *)
 (*          (4 node ...) and | (5 node ...) or | (6 node ...) not                             *)
+(*          (7 code)  a malformed node map (always refused)                                    *)
+(*          ts mode 2: value "file_d_start" (a = 0)                                            *)
 (*   tables: (lower regexp compile contains-any time int)                                     *)
 (* ======================================================================================== *)
 Inductive dec := DBad | DReject | DNode (n : node).
@@ -468,6 +527,7 @@ Fixpoint node_of_sx (s : sx) : dec :=
       match path_of_sx p, cmp_of c, mode with
       | Some path, Some c', 0 => DNode (NTs path format c' (TsConst a) shift)
       | Some path, Some c', 1 => DNode (NTs path format c' (TsNow a) shift)
+      | Some path, Some c', 2 => DNode (NTs path format c' (TsNow 0) shift)   (* value "file_d_start": the clock read once *)
       | _, _, _ => DBad
       end
   | SL [SZ 3; p; SL names] =>
@@ -475,6 +535,7 @@ Fixpoint node_of_sx (s : sx) : dec :=
       | Some path, Some ns => DNode (NType path (map jtype_of_name ns))
       | _, _ => DBad
       end
+  | SL [SZ 7; SZ _] => DReject        (* a node map ctor.go refuses (missing / mistyped key, unknown op): harness table *)
   | SL (SZ k :: ops) =>
       if (k =? 4) || (k =? 5) || (k =? 6) then
         let r := (fix go (l : list sx) : option (option (list node)) :=   (* None bad | Some None rejected *)
@@ -613,28 +674,190 @@ Definition verdict3 (m s obs : sx) : verdict :=
 Definition t_hyps (t : tables) (n : node) (e : json) : bool :=
   lower_hyp (tlower t) n e && cont_ok (tlower t) (tre t) (tany t) n e.
 
+(* ---- antispam data: (9 #event #source_name ((#key #value) ...)) ------------------------------ *)
+Definition asdata_of_sx (s : sx) : option asdata :=
+  match s with
+  | SL [SZ 9; SB ev; SB src; SL ms] =>
+      match opt_map (fun x => match x with SL [SB k; SB v] => Some (k, v) | _ => None end) ms with
+      | Some m => Some {| as_event := ev; as_source := src; as_meta := m |}
+      | None => None
+      end
+  | _ => None
+  end.
+
+Fixpoint needs_ok_as (t : tables) (n : node) (d : asdata) {struct n} : bool :=
+  match n with
+  | NField op path cs v0 vr =>
+      let vals := v0 :: vr in
+      let x := bytes_of (as_get d path) in
+      let m := Z.to_nat (max_len v0 vr) in
+      (cs || (has_lower t x && forallb (fun v => has_lower t (bytes_of v)) vals
+              && has_lower t (firstn m x) && has_lower t (lastn m x)))
+      && match op with
+         | FRegex => forallb (fun p => isSome (lookup1 (t_reok t) (bytes_of p))
+                                       && isSome (lookup2 (t_re t) (bytes_of p) x)) vals
+         | FContainsAny =>
+             forallb (fun v => isSome (lookup2 (t_any t) (low (tlower t) cs x) (low (tlower t) cs (bytes_of v)))) vals
+         | _ => true
+         end
+  | NAnd ops | NOr ops => forallb (fun x => needs_ok_as t x d) ops
+  | NNot x => needs_ok_as t x d
+  | _ => true
+  end.
+
+Definition t_check_as (t : tables) := check_as (tlower t) (tre t) (tany t).
+Definition t_eval_as (t : tables) := eval_as (tlower t) (tre t) (tany t).
+
+(* which = 0 with antispam data in the place of the event: the rule is one antispam rule with threshold 0
+   (discard), the decision is Antispammer.IsSpam *)
+Definition c14_as_run (via : Z) (tree : sx) (d : asdata) (tb obs : sx) : verdict :=
+  match node_of_sx tree, tables_of_sx tb with
+  | DReject, Some _ => exact_verdict obs_reject obs
+  | DNode n, Some t =>
+      if negb (t_wfb t n) then exact_verdict obs_reject obs
+      else if negb (needs_ok_as t n d) then BadCase
+      else if Z.testbit via 1 && negb (lower_hyp_as (tlower t) n d) then BadCase
+      else verdict3 (of_bool (t_check_as t n d)) (of_bool (t_eval_as t n d)) obs
+  | _, _ => BadCase
+  end.
+
 (* which = 0: case = (via tree event now tables), obs = 0 | 1 | (2) constructor error.
    via: bit 0 = built with the New*Node constructors (else NewFromMap); bit 1 = the harness found
-   the side conditions to hold with the real bytes.ToLower — the model re-evaluates them. *)
+   the side conditions to hold with the real bytes.ToLower — the model re-evaluates them;
+   bits 2.. = which spelling of the rule the real code was given and which reader read it (terse map
+   with the documented defaults left out, JSON text through fd.extractDoIfChecker /
+   extractAntispamRules / extractPipelineParams): the meaning of the rule does not depend on them. *)
 Definition c14_check_run (case obs : sx) : verdict :=
   match case with
   | SL [SZ via; tree; ev; SZ now; tb] =>
+      match asdata_of_sx ev with
+      | Some d => c14_as_run via tree d tb obs
+      | None =>
       match node_of_sx tree, json_of_sx ev, tables_of_sx tb with
       | DReject, Some _, Some _ => exact_verdict obs_reject obs
       | DNode n, Some e, Some t =>
           if negb (t_wfb t n) then exact_verdict obs_reject obs
           else if negb (needs_ok t n e) then BadCase
-          else if (2 <=? via) && negb (t_hyps t n e) then BadCase
+          else if Z.testbit via 1 && negb (t_hyps t n e) then BadCase
           else verdict3 (of_bool (t_check t n e now)) (of_bool (t_eval t n e now)) obs
       | _, _, _ => BadCase
+      end
       end
   | _ => BadCase
   end.
 
+(* ======================================================================================== *)
+(* Action chains: processor.doActions / processEvent over the actions of one pipeline, one    *)
+(* stream, one processor. Every action has its own selector and, when entered, answers with   *)
+(* the next result of its script (a probe plugin of the harness): pass | break | discard |    *)
+(* collapse. An action that answered collapse is BUSY: it gets the next event of the stream   *)
+(* without its selector being consulted (processor.go: `if !p.busyActions[index] && ...`).    *)
+(* ======================================================================================== *)
+Inductive ares := RPass | RBreak | RDiscard | RCollapse.
+Record cact := { ca_sel : option node; ca_script : list ares }.     (* no selector: every event *)
+Record cst := { cs_busy : bool; cs_pos : nat }.
+
+Definition script_at (s : list ares) (k : nat) : ares := nth (Nat.modulo k (length s)) s RPass.
+Definition sel_dec (dec : node -> bool) (a : cact) : bool :=
+  match ca_sel a with Some n => dec n | None => true end.
+Definition cst_next (s : cst) (busy : bool) : cst := {| cs_busy := busy; cs_pos := S (cs_pos s) |}.
+
+(* one event through the actions: (entered bits, reaches the output, states afterwards) *)
+Fixpoint chain_step (dec : node -> bool) (acts : list cact) (sts : list cst) : list bool * bool * list cst :=
+  match acts, sts with
+  | a :: ar, s :: sr =>
+      if cs_busy s || sel_dec dec a then
+        match script_at (ca_script a) (cs_pos s) with
+        | RPass => let '(bs, o, sr') := chain_step dec ar sr in (true :: bs, o, cst_next s false :: sr')
+        | RBreak => (true :: map (fun _ => false) ar, true, cst_next s false :: sr)
+        | RDiscard => (true :: map (fun _ => false) ar, false, cst_next s false :: sr)
+        | RCollapse => (true :: map (fun _ => false) ar, false, cst_next s true :: sr)
+        end
+      else let '(bs, o, sr') := chain_step dec ar sr in (false :: bs, o, s :: sr')
+  | _, _ => ([], true, [])
+  end.
+
+(* the events of the stream in order *)
+Fixpoint chain_run {E} (dec : E -> node -> bool) (acts : list cact) (sts : list cst) (evs : list E)
+  : list (list bool * bool) :=
+  match evs with
+  | [] => []
+  | e :: r => let '(bs, o, sts') := chain_step (dec e) acts sts in (bs, o) :: chain_run dec acts sts' r
+  end.
+
+Definition cst_init (acts : list cact) : list cst := map (fun _ => {| cs_busy := false; cs_pos := 0 |}) acts.
+
+(* the documented reading, for an action that is not in the middle of a sequence: it is entered iff
+   the event got as far as this action (every earlier action the event entered passed it on) and
+   its selector holds *)
+Fixpoint chain_spec_free (dec : node -> bool) (acts : list cact) (results : list ares) : list bool :=
+  match acts, results with
+  | a :: ar, r :: rr =>
+      if sel_dec dec a then
+        match r with
+        | RPass => true :: chain_spec_free dec ar rr
+        | _ => true :: map (fun _ => false) ar
+        end
+      else false :: chain_spec_free dec ar rr
+  | _, _ => []
+  end.
+
+(* glue: chain = (10 action ...), action = (selector (result ...)), selector = node | 0 (none) |
+   (8 (#key ...) #json-text): a match_fields value that is neither a string nor a list of strings
+   (documented forms: string, /regexp/, list of strings) — the configuration is refused *)
+Definition ares_of (z : Z) : option ares :=
+  match z with 0 => Some RPass | 1 => Some RBreak | 2 => Some RDiscard | 3 => Some RCollapse | _ => None end.
+Inductive cdec := CBad | CReject | CAct (a : cact).
+Definition cact_of_sx (s : sx) : cdec :=
+  match s with
+  | SL [sel; SL rs] =>
+      match opt_map (fun x => match x with SZ z => ares_of z | _ => None end) rs with
+      | None => CBad
+      | Some script =>
+          match sel with
+          | SZ 0 => CAct {| ca_sel := None; ca_script := script |}
+          | SL [SZ 8; _; SB _] => CReject
+          | _ => match node_of_sx sel with
+                 | DBad => CBad
+                 | DReject => CReject
+                 | DNode n => CAct {| ca_sel := Some n; ca_script := script |}
+                 end
+          end
+      end
+  | _ => CBad
+  end.
+
+Definition sx_of_row (r : list bool * bool) : sx := SL [SL (map of_bool (fst r)); of_bool (snd r)].
+
 (* which = 1: the same checkers over a sequence of events (one decoded root per event, every
    checker in turn): case = (via (tree ...) (event ...) now tables), obs = ((bit ...) ...) | (2) *)
+(* which = 1 with (10 action ...) in the place of the trees: a real pipeline whose actions are probes;
+   obs = (((entered ...) reached-output) ...) one row per event | (2) configuration refused *)
+Definition c14_chain_run (via : Z) (acts : list sx) (evs : list sx) (now : Z) (tb obs : sx) : verdict :=
+  match opt_map json_of_sx evs, tables_of_sx tb with
+  | Some es, Some t =>
+      let ds := map cact_of_sx acts in
+      if existsb (fun d => match d with CBad => true | _ => false end) ds then BadCase
+      else if existsb (fun d => match d with
+                                | CReject => true
+                                | CAct a => match ca_sel a with Some n => negb (t_wfb t n) | None => false end
+                                | CBad => false end) ds
+      then exact_verdict obs_reject obs
+      else
+        let cs := flat_map (fun d => match d with CAct a => [a] | _ => [] end) ds in
+        let ns := flat_map (fun a => match ca_sel a with Some n => [n] | None => [] end) cs in
+        if negb (forallb (fun e => forallb (fun n => needs_ok t n e) ns) es) then BadCase
+        else if Z.testbit via 1 && negb (forallb (fun e => forallb (fun n => t_hyps t n e) ns) es) then BadCase
+        else
+          let m := SL (map sx_of_row (chain_run (fun e n => t_check t n e now) cs (cst_init cs) es)) in
+          let s := SL (map sx_of_row (chain_run (fun e n => t_eval t n e now) cs (cst_init cs) es)) in
+          verdict3 m s obs
+  | _, _ => BadCase
+  end.
+
 Definition c14_seq_run (case obs : sx) : verdict :=
   match case with
+  | SL [SZ via; SL (SZ 10 :: acts); SL evs; SZ now; tb] => c14_chain_run via acts evs now tb obs
   | SL [SZ via; SL trees; SL evs; SZ now; tb] =>
       match opt_map json_of_sx evs, tables_of_sx tb with
       | Some es, Some t =>
@@ -645,7 +868,7 @@ Definition c14_seq_run (case obs : sx) : verdict :=
           else
             let ns := flat_map (fun d => match d with DNode n => [n] | _ => [] end) ds in
             if negb (forallb (fun e => forallb (fun n => needs_ok t n e) ns) es) then BadCase
-            else if (2 <=? via) && negb (forallb (fun e => forallb (fun n => t_hyps t n e) ns) es) then BadCase
+            else if Z.testbit via 1 && negb (forallb (fun e => forallb (fun n => t_hyps t n e) ns) es) then BadCase
             else
               let m := SL (map (fun e => SL (map (fun n => of_bool (t_check t n e now)) ns)) es) in
               let s := SL (map (fun e => SL (map (fun n => of_bool (t_eval t n e now)) ns)) es) in
